@@ -27,7 +27,7 @@ func init() {
 				"the answer flag, each written to its own byte range (no overlapping shifts). R8: every rule-list engine constructor " +
 				"receives the empty cache or a result cache created for it alone, once per engine.",
 			NotCovered: "equality of verdicts with and without caches over all list contents; client-specific modifiers ($client), which the property excludes.",
-			Rules: map[string]string{"C12-R1": "swap+clear in one write-locked section", "C12-R2": "query path read-holds the lock",
+			Rules: map[string]string{"C12-R13": "slices of a (possibly cached, shared) urlfilter.DNSResult are only read or copied, never stored or appended to", "C12-R1": "swap+clear in one write-locked section", "C12-R2": "query path read-holds the lock",
 				"C12-R3": "generalised refresh discipline (F9)", "C12-R4": "no per-request data in shared caches (F8)", "C12-R5": "custom engine staleness gate", "C12-R9": "caches store clones and hand out clones (shared with C07-R4)",
 				"C12-R10": "custom rules received from the backend are stamped with the time of reception (time.Now), the only stamp that is newer than every cached engine",
 				"C12-R6":  "collision checks", "C12-R7": "cache key dependence and injective packing", "C12-R8": "one result cache per engine"},
@@ -63,6 +63,9 @@ func runC12(c *an.Ctx) {
 	// ---- R9: result caches store and hand out copies
 	c07Caches(c, "C12-R9")
 	c07Cloner(c, "C12-R9")
+	// ---- R13: a cached urlfilter result is never aliased by a per-request accumulator
+	c.Floor("C12-R13", 3)
+	c12NoAliasCached(c, "C12-R13")
 	// ---- R10: every version of a profile's custom rules gets a newer update time
 	c12UpdateTime(c)
 
@@ -773,4 +776,55 @@ func ruleListRefreshLocking(c *an.Ctx, r1, r2 string, cache map[*ssa.Function]ma
 		}
 	}
 
+}
+
+// c12NoAliasCached: a *urlfilter.DNSResult may come out of a result cache and
+// is then shared by every request (of every profile) that hits the entry.  Its
+// rule slices may be read and copied (append(dst, src...)), never stored into
+// another object or used as the destination of an append: a per-request
+// accumulator that aliases them writes its own rules into the shared backing
+// array.
+func c12NoAliasCached(c *an.Ctx, rule string) {
+	n := 0
+	for _, fn := range c.AllFns {
+		if fn.Blocks == nil || c.IsTestFile(fn.Pos()) || !strings.HasPrefix(an.FnKey(fn), "filter/") {
+			continue
+		}
+		k := an.FnKey(fn)
+		an.Instrs(fn, func(in ssa.Instruction) {
+			ld, ok := in.(*ssa.UnOp)
+			if !ok || ld.Op != token.MUL {
+				return
+			}
+			typ, field, _, ok := an.FieldOf(ld.X)
+			if !ok || typ != "github.com/AdguardTeam/urlfilter.DNSResult" {
+				return
+			}
+			if _, isSl := ld.Type().Underlying().(*types.Slice); !isSl || ld.Referrers() == nil {
+				return
+			}
+			n++
+			c.Analysed(k)
+			bad := ""
+			for _, r := range *ld.Referrers() {
+				switch u := r.(type) {
+				case *ssa.Store:
+					if u.Val == ssa.Value(ld) {
+						bad = "stored into another object"
+					}
+				case *ssa.Call:
+					if b, isB := u.Call.Value.(*ssa.Builtin); isB && b.Name() == "append" && u.Call.Args[0] == ssa.Value(ld) {
+						bad = "used as the destination of an append"
+					}
+				case *ssa.Return:
+					// handing the slice to the caller is the caller's obligation; the callers in scope are checked too
+				}
+			}
+			c.Check(bad == "", rule, fmt.Sprintf("%s reads DNSResult.%s without aliasing it", k, field), ld.Pos(),
+				"the cached result's slice is only read or copied", "the slice of a possibly cached, shared DNSResult is "+bad+": later appends write into memory shared with other requests")
+		})
+	}
+	if n < 3 {
+		c.Und(rule, "reads of urlfilter.DNSResult slices", token.NoPos, "only %d reads found (anchor: rulelist.URLFilterResult.Add)", n)
+	}
 }
